@@ -86,7 +86,38 @@ def progs():
         r = await mpc.output(x * x)
         return r, await t0
 
-    return {'fire_and_forget': fire_and_forget, 'barriers': barriers, 'nested': nested, 'early': early}
+    class InjectedFault(Exception):
+        pass
+
+    async def faulty(mpc):
+        """a coroutine without return value (declared -> None, like mpc.peek) fails at every party; its exception is
+        swallowed by the runtime; later barriers and shutdown must still wait for everything started"""
+        secint = mpc.SecInt(16)
+
+        @mpc.coroutine
+        async def check(x) -> None:
+            v = await mpc.output(x)
+            if v != 0:
+                raise InjectedFault(f'check failed: {v}')
+
+        @mpc.coroutine
+        async def late_square(a):
+            await mpc.returnType(type(a))
+            b = a * a
+            await mpc.gather(b)
+            return b * a
+
+        x = mpc.input(secint(mpc.pid + 2))
+        check(x[0])                           # raises inside the coroutine's task
+        await mpc.barrier('after-fault')
+        u = late_square(x[-1])                # one coroutine in flight ...
+        await mpc.barrier('A')                # ... must be finished when this barrier returns
+        w = late_square(x[0])                 # pending at shutdown
+        r = await mpc.output(x[0])
+        return r
+
+    faulty.expected_exc = (InjectedFault,)
+    return {'fire_and_forget': fire_and_forget, 'barriers': barriers, 'nested': nested, 'early': early, 'faulty': faulty}
 
 
 class Monitor:
@@ -187,6 +218,7 @@ def run_case(name, m, t, no_prss, seed, mode, no_barrier=False):
     prog = progs()[name]
     net = SimNet(m, t, no_prss=no_prss, seed=seed, sched=Scheduler(seed, mode), max_steps=1_000_000,
                  no_barrier=no_barrier)
+    net.expected_exc = getattr(prog, 'expected_exc', ())
     with Monitor(net) as mon:
         try:
             res = net.run(prog)
